@@ -263,6 +263,7 @@ func c08StructToken(r c08Row) int {
 
 // a c08Reader adapts one reader kind to seek/read returning tokens.
 type c08Reader interface {
+	reset() bool // false: this kind of reader has no Reset
 	seek(k int) error
 	read(n int) (got []int, err error)
 	close()
@@ -273,6 +274,7 @@ type c08Pages struct {
 	pages parquet.Pages
 }
 
+func (p *c08Pages) reset() bool      { return false }
 func (p *c08Pages) seek(k int) error { return p.pages.SeekToRow(int64(k)) }
 func (p *c08Pages) read(int) ([]int, error) {
 	page, err := p.pages.ReadPage()
@@ -306,6 +308,7 @@ type c08Values struct {
 	r   parquet.ColumnChunkValueReader
 }
 
+func (p *c08Values) reset() bool      { return false }
 func (p *c08Values) seek(k int) error { return p.r.SeekToRow(int64(k)) }
 func (p *c08Values) read(n int) ([]int, error) {
 	buf := make([]parquet.Value, n)
@@ -328,6 +331,13 @@ type c08Rows struct {
 	closer io.Closer
 }
 
+func (p *c08Rows) reset() bool {
+	if r, ok := p.r.(interface{ Reset() }); ok {
+		r.Reset()
+		return true
+	}
+	return false
+}
 func (p *c08Rows) seek(k int) error { return p.r.SeekToRow(int64(k)) }
 func (p *c08Rows) read(n int) ([]int, error) {
 	rows := make([]parquet.Row, n)
@@ -352,6 +362,7 @@ type c08Generic struct {
 	r *parquet.GenericReader[c08Row]
 }
 
+func (p *c08Generic) reset() bool      { p.r.Reset(); return true }
 func (p *c08Generic) seek(k int) error { return p.r.SeekToRow(int64(k)) }
 func (p *c08Generic) read(n int) ([]int, error) {
 	rows := make([]c08Row, n)
@@ -371,6 +382,7 @@ var c08Layers = []string{
 	"rows", "rgreader", "reader", "generic",
 	"apages:s", "apages:l", "arows", "areader",
 	"multi", "merged", "mergedsorted", "buffer",
+	"convertreader", // ConvertRowReader over the rows of the row group: seeks forward only (backward seeks are refused)
 }
 
 func c08Open(layer string, sc *c08Scenario, variant int) (c08Reader, *c08File, string, error) {
@@ -431,6 +443,21 @@ func c08Open(layer string, sc *c08Scenario, variant int) (c08Reader, *c08File, s
 		}
 		rows := m.Rows()
 		rd = &c08Rows{file: file, r: rows, closer: rows, schema: m.Schema()}
+	case "convertreader":
+		conv, err := parquet.Convert(file.Schema(), file.Schema())
+		if err != nil {
+			return nil, nil, "", err
+		}
+		src := file.RowGroups()[0].Rows()
+		cr := parquet.ConvertRowReader(src, conv)
+		sk, ok := cr.(interface {
+			parquet.RowReader
+			SeekToRow(int64) error
+		})
+		if !ok {
+			return nil, nil, "", fmt.Errorf("ConvertRowReader no longer exposes SeekToRow")
+		}
+		rd = &c08Rows{file: file, r: sk, closer: src}
 	case "buffer": // the same rows in an in-memory buffer
 		b := parquet.NewBuffer(file.Schema())
 		src := file.RowGroups()[0].Rows()
@@ -495,8 +522,26 @@ func c08Main(args []string) error {
 						e["msg"] = msg
 					}
 					tr.emit("Seek", e)
+				case "reset": // back to the first row: Reset where the reader has it, SeekToRow(0) otherwise
+					var serr error
+					did := false
+					pan, msg := guard(func() {
+						if did = rd.reset(); !did {
+							serr = rd.seek(0)
+						}
+					})
+					e := ev{"k": 0, "err": b2i(serr != nil || pan), "panic": b2i(pan), "reset": b2i(did)}
+					if serr != nil {
+						e["msg"] = serr.Error()
+					} else if pan {
+						e["msg"] = msg
+					}
+					tr.emit("Seek", e)
 				case "read":
 					n := batch[r.intn(len(batch))]
+					if op.K > 0 { // a read of a given size (directed histories)
+						n = op.K
+					}
 					var got []int
 					var rerr error
 					pan, msg := guard(func() { got, rerr = rd.read(n) })
